@@ -322,18 +322,22 @@ fn gen_c06(tier: &str, rng: &mut Sm) -> Gen {
 fn gen_c07(tier: &str, rng: &mut Sm) -> Gen {
     let mut g = Gen::new();
     let draws = if tier == "thorough" { 400000 } else { 20000 };
-    for n in 1..=7usize {
-        for ties in [false, true] {
-            let pop = pop_by_total(rng, n, ties);
-            let pol = rng.range(0, 3);
-            for k in 1..=n {
-                g.inputs.push(case(rng, draws, pol, pop.clone(), tl![A(3), au(k)]));
+    let (reps, nmax) = if tier == "thorough" { (6, 9usize) } else { (1, 7usize) };
+    for rep in 0..reps {
+        for n in 1..=nmax {
+            for ties in [false, true] {
+                let pop = pop_by_total(rng, n, ties);
+                // every polarity code (0/1: separate genomes, 2/3: neighbouring individuals share genomes) over the repetitions
+                let pol = if reps > 1 { ((rep + n) % 4) as i64 } else { rng.range(0, 3) };
+                for k in 1..=n {
+                    g.inputs.push(case(rng, draws, pol, pop.clone(), tl![A(3), au(k)]));
+                }
+                g.inputs.push(case(rng, 200, pol, pop.clone(), tl![A(0)]));
+                g.inputs.push(case(rng, 200, pol, pop.clone(), tl![A(1)]));
             }
-            g.inputs.push(case(rng, 200, pol, pop.clone(), tl![A(0)]));
-            g.inputs.push(case(rng, 200, pol, pop.clone(), tl![A(1)]));
         }
     }
-    g.meta("generator", "populations of 1..7 single-case individuals with and without ties, both polarities; every tournament size 1..n; best and worst");
+    g.meta("generator", format!("{reps} x populations of 1..{nmax} single-case individuals with and without ties, both polarities, separate and shared genomes; every tournament size 1..n; best and worst"));
     g
 }
 
